@@ -114,6 +114,10 @@ def history_shard(acc, sh, deadline):
                     core.add_viol(acc, 'call %d of history %d (pool entry %d, after entries %s): %s; the same call alone in a fresh interpreter gives %s' % (
                         pos, h, i, seq[max(0, pos - 4):pos], describe(got), describe(want)), case, {'source': (pool[i]['src'] or '<include tree>')[:400]})
                     break
+                if got.get('differs_from_hand_computed'):
+                    core.add_viol(acc, 'call %d of history %d (pool entry %d): %s; the hand-assembled program is %s' % (
+                        pos, h, i, describe(got), got['differs_from_hand_computed']), case, {'source': (pool[i]['src'] or '')[:400]})
+                    break
                 if got.get('externals_changed_by_the_failing_call'):
                     core.add_viol(acc, 'call %d of history %d (pool entry %d) failed (%s) and left the caller\'s external symbols changed: %r' % (
                         pos, h, i, got.get('msg', '')[:60], got['externals_changed_by_the_failing_call']), case, {'source': (pool[i]['src'] or '')[:400]})
